@@ -361,6 +361,38 @@ end
 
 end Spec
 
+/-! ### router-wide lists, read off the program text -/
+
+/-- the arguments of the `Use` calls that stand outside every group, in program order -/
+def topUses : List Stmt → List H
+  | [] => []
+  | .use hs :: rest => hs ++ topUses rest
+  | _ :: rest => topUses rest
+
+-- the argument of the last `NotFound` / `NotAllowed` call anywhere in the program (they are router-wide)
+mutual
+def lastNF (cur : List H) : Stmt → List H
+  | .notFound hs => hs
+  | .group _ _ body => lastNFList cur body
+  | .controller _ _ body => lastNFList cur body
+  | _ => cur
+def lastNFList (cur : List H) : List Stmt → List H
+  | [] => cur
+  | s :: rest => lastNFList (lastNF cur s) rest
+end
+
+mutual
+def lastNA (cur : List H) : Stmt → List H
+  | .notAllowed hs => hs
+  | .group _ _ body => lastNAList cur body
+  | .controller _ _ body => lastNAList cur body
+  | _ => cur
+def lastNAList (cur : List H) : List Stmt → List H
+  | [] => cur
+  | s :: rest => lastNAList (lastNA cur s) rest
+end
+
+
 /-! ### the chain assembled at request time (`dispatch.go: handleHTTPRequest`) -/
 
 /-- how a request resolved (the lookup itself is the table model's business) -/
